@@ -51,7 +51,7 @@ func New(fset *token.FileSet, info *types.Info, body *ast.BlockStmt) *Graph {
 
 	// classify condition expressions
 	conds := map[ast.Expr]bool{}
-	caseTag := map[ast.Expr]ast.Expr{}  // case value -> switch tag
+	caseTag := map[ast.Expr]ast.Expr{} // case value -> switch tag
 	isCase := map[ast.Expr]bool{}
 	ast.Inspect(body, func(n ast.Node) bool {
 		switch s := n.(type) {
